@@ -61,33 +61,19 @@ fn model_reaches(done: &BTreeMap<TaskId, crate::model::Exec>, from: TaskId, to: 
   false
 }
 
-pub fn check_roles(case: &Case, stats: &mut Stats) -> CheckResult {
-  let run = engine::run_case(case, &Opts::default());
-  let mut sh = Shadow::default();
-  let mut flips = 0;
-  let mut reexec_after_flip = false;
-  let mode_res = case.prog.n_res - 1;
-  let mut aborted_any = false;
-  for sess in run.sessions.iter() {
-    if sess.changed_before.contains(&mode_res) { flips += 1; }
-    let mut current: BTreeSet<TaskId> = BTreeSet::new();
-    for (bi, b) in sess.builds.iter().enumerate() {
-      let completed_before = sh.completed.clone();
-      let mut stack_at_abort: Vec<TaskId> = vec![];
-      for l in &run.log[b.log.clone()] {
-        match l {
-          L::E(Ev::RequireEnd { t, .. }) | L::E(Ev::CheckTaskEnd { t, .. }) | L::E(Ev::ExecEnd { t, .. }) => { current.insert(*t); }
-          L::TEnter(t) => { if flips > 0 && completed_before.contains(t) { reexec_after_flip = true; } }
-          L::Aborted => { stack_at_abort = sh.stack.clone(); }
-          _ => {}
-        }
-        sh.feed(l);
-      }
-      let BuildResult::Panic(msg) = &b.result else { continue; };
-      aborted_any = true;
-      let kind = panic_kind(msg);
-      if kind == PanicKind::Internal { return Err(Failure::new(format!("[c20-internal] step {} build {}: {}", sess.step, bi, msg))); }
-      if kind == PanicKind::Injected { continue; }
+
+pub enum AbortVerdict {
+  /// A from-scratch build of all known tasks in the current state aborts as well.
+  Confirmed,
+  /// No violation exists now; `sig` names the stale-edge pattern (C20-F1..F4) if one explains the abort.
+  Spurious { what: String, sig: Option<&'static str> },
+}
+
+/// Judges a diagnosed abort (cycle / hidden dependency / overlap) of build `bi` of `sess`: `sh` is the shadow record at
+/// the moment of the abort, `current` the tasks validated so far in this session, `stack_at_abort` the executing tasks.
+pub fn judge_abort(case: &Case, sess: &engine::SessionRec, bi: usize, msg: &str, sh: &Shadow, current: &BTreeSet<TaskId>, stack_at_abort: &[TaskId]) -> AbortVerdict {
+  let b = &sess.builds[bi];
+  let kind = panic_kind(msg);
       // O1: all known tasks from scratch in the current state, in two orders.
       let known: Vec<TaskId> = sh.known.iter().cloned().collect();
       let roots: Vec<TaskId> = sess.builds.iter().filter_map(|x| match &x.kind { BuildKind::TopDown(t) | BuildKind::Then(t) | BuildKind::Probe(t) => Some(*t), _ => None }).collect();
@@ -99,11 +85,7 @@ pub fn check_roles(case: &Case, stats: &mut Stats) -> CheckResult {
         if ev.violation.is_some() { o1_violation = ev.violation.clone(); }
         done = ev.done;
       }
-      if let Some(v) = o1_violation {
-        stats.class("abort_confirmed_by_from_scratch_build");
-        let _ = v;
-        return Ok(()); // a real violation exists in this state: no claim about this case
-      }
+      if o1_violation.is_some() { return AbortVerdict::Confirmed; }
       // Spurious. Attribute to a recorded finding by the stale-edge signature.
       let (ts, rs) = ids(msg);
       let cur_set: BTreeSet<TaskId> = current.iter().cloned().chain(stack_at_abort.iter().cloned()).collect();
@@ -143,10 +125,48 @@ pub fn check_roles(case: &Case, stats: &mut Stats) -> CheckResult {
         }
         _ => None,
       };
-      return match sig {
-        Some(s) => { stats.class(s); Err(Failure::with_sig(what, s)) }
-        None => Err(Failure::new(what)),
-      };
+      AbortVerdict::Spurious { what, sig }
+}
+
+pub fn check_roles(case: &Case, stats: &mut Stats) -> CheckResult {
+  let run = engine::run_case(case, &Opts::default());
+  let mut sh = Shadow::default();
+  let mut flips = 0;
+  let mut reexec_after_flip = false;
+  let mode_res = case.prog.n_res - 1;
+  let mut aborted_any = false;
+  for sess in run.sessions.iter() {
+    if sess.changed_before.contains(&mode_res) { flips += 1; }
+    let mut current: BTreeSet<TaskId> = BTreeSet::new();
+    for (bi, b) in sess.builds.iter().enumerate() {
+      let completed_before = sh.completed.clone();
+      let mut stack_at_abort: Vec<TaskId> = vec![];
+      for l in &run.log[b.log.clone()] {
+        match l {
+          L::E(Ev::RequireEnd { t, .. }) | L::E(Ev::CheckTaskEnd { t, .. }) | L::E(Ev::ExecEnd { t, .. }) => { current.insert(*t); }
+          L::TEnter(t) => { if flips > 0 && completed_before.contains(t) { reexec_after_flip = true; } }
+          L::Aborted => { stack_at_abort = sh.stack.clone(); }
+          _ => {}
+        }
+        sh.feed(l);
+      }
+      let BuildResult::Panic(msg) = &b.result else { continue; };
+      aborted_any = true;
+      let kind = panic_kind(msg);
+      if kind == PanicKind::Internal { return Err(Failure::new(format!("[c20-internal] step {} build {}: {}", sess.step, bi, msg))); }
+      if kind == PanicKind::Injected { continue; }
+      match judge_abort(case, sess, bi, msg, &sh, &current, &stack_at_abort) {
+        AbortVerdict::Confirmed => {
+          stats.class("abort_confirmed_by_from_scratch_build");
+          return Ok(()); // a real violation exists in this state: no claim about this case
+        }
+        AbortVerdict::Spurious { what, sig } => {
+          return match sig {
+            Some(s) => { stats.class(s); Err(Failure::with_sig(what, s)) }
+            None => Err(Failure::new(what)),
+          };
+        }
+      }
     }
   }
   if !aborted_any { stats.class("role_case_without_abort"); }
@@ -169,6 +189,12 @@ fn c20_extra(_spec: &Spec, tier: Tier, seed: u64, known: &Known, report: &mut Re
   let scfg = SearchCfg { prop: "C20", label: "roles", seed, shards, cases_per_shard: cases, max_shrink_iters: 3000 };
   let (stats, found) = driver::search(&scfg, known, || gen::role_case_strategy(cfg.clone()), |c, s| check_roles(c, s), |c| pretty_case(c));
   report.absorb("roles", stats, found);
+  // Programs with one state-dependent violation (guarded hidden dependency / overlap / cycle): same oracle.
+  let (shards, cases) = match tier { Tier::Quick => (8, 6000), Tier::Thorough => (16, 60000) };
+  let gcfg = super::diag::guarded_cfg(tier);
+  let scfg = SearchCfg { prop: "C20", label: "guarded", seed, shards, cases_per_shard: cases, max_shrink_iters: 3000 };
+  let (stats, found) = driver::search(&scfg, known, || super::diag::strategy(gcfg.clone()), |c, s| super::diag::check(c, super::diag::Mode::C20, s), |c| pretty_case(c));
+  report.absorb("guarded", stats, found);
 }
 
 pub fn replay_roles(case: &Case) -> CheckResult { driver::guarded(|| check_roles(case, &mut Stats::dummy())) }
